@@ -21,11 +21,12 @@ def models(tier, seed):
     ms.append(dict(module='MC_C12.tla', cfg='MC_C12_series.cfg' if tier == 'quick' else 'MC_C12_series_thorough.cfg', batch=20))
     ms.append(dict(module='MC_C12.tla', cfg='MC_C12_parallel.cfg', batch=20))
     ms.append(dict(module='MC_C10.tla', cfg='MC_C10_quick2.cfg', batch=20))
+    ms.append(dict(module='MC_C10.tla', cfg='MC_C10_light3.cfg', batch=20))
     return ms
 
 
 def required_tags(tier):
-    return ['order:1', 'order:2', 'complex_poles', 'real_poles', 'closed_form', 'algebraic_only', 'settle_dc', 'kcl', 'rest_start', 'scheme:other', 'sources:2']
+    return ['order:1', 'order:2', 'complex_poles', 'real_poles', 'closed_form', 'algebraic_only', 'settle_dc', 'kcl', 'rest_start', 'scheme:other', 'sources:2', 'capacitors>=2']
 
 
 def poly_eval(poly, p, eta):
@@ -70,7 +71,13 @@ def replay(case, ctx):
     src_ids = case['sources']
     if len(src_ids) >= 2:
         tg.add('sources:2')
+    if sum(1 for c in ng if c['kind'] == 'capacitor') >= 2:
+        tg.add('capacitors>=2')
     closed = 'run' in case
+    if not closed and ctx.get('tier') != 'thorough' and len(ng) >= 5 and h0 % 6:
+        r.skipped = 'sampled_out_in_quick_tier'
+        r.nontrivial = False
+        return r
     tg.add('closed_form' if closed else 'algebraic_only')
     A = np.array([[float(rat(x)) for x in row] for row in case['A']])
     eig = np.linalg.eigvals(A)
@@ -174,7 +181,7 @@ def replay(case, ctx):
                 cur[c['id']] = s_
         if len(cur) == len(ng):
             tg.add('kcl')
-            scale = max(np.max(np.abs(v)) for v in cur.values()) + 1e-12
+            scale = max(max(np.max(np.abs(v)) for v in cur.values()), 1e-6)
             for nn in nodes:
                 tot = sum(cur[c['id']] for c in ng if c['n1'] == nn) - sum(cur[c['id']] for c in ng if c['n2'] == nn)
                 r.observations += len(tot)
